@@ -40,10 +40,12 @@ static jwk_set_t *do_load(jwk_set_t *set, const std::string &doc, int how) {
 }
 
 // returns violated clause or ""
+static bool G_RECYCLE = false, G_LEDGER = false;   // G_LEDGER: the application's allocator keeps a ledger - everything it handed out must come back through its free hook
 // sparse = the state is inspected only at the end (and by the operations themselves): a full scan after every step walks the
 // list from index 0 and so puts any lookup state the set keeps (cursor, last hit) back in order before the next operation uses it
 static std::string run_seq(const std::vector<Op> &ops, bool sparse = false) {
   TRACE.clear(); g_counter = 0;
+  size_t ledger0 = G_LEDGER ? guard_live().size() : 0; if (G_LEDGER) guard_foreign_frees() = 0;
   Model m; jwk_set_t *set = jwks_create(NULL);
   if (!set) return "create-null";
   std::string bad;
@@ -110,13 +112,13 @@ static std::string run_seq(const std::vector<Op> &ops, bool sparse = false) {
     if (!bad.empty()) { bad += std::string("-after-") + ON[o.k % O_N] + (sparse ? "(state-inspected-at-the-end-only)" : ""); break; }
   }
   jwks_free(set);
+  if (bad.empty() && G_LEDGER) { if (guard_foreign_frees()) bad = "pointer-not-from-installed-allocator-passed-to-its-free"; else if (guard_live().size() != ledger0) { bad = "block-from-installed-allocator-never-returned-to-it"; TRACE += " [" + std::to_string(guard_live().size() - ledger0) + " block(s) outstanding]"; } }
   return bad;
 }
 
 static const std::vector<Op> *CUR = nullptr;
-static bool G_RECYCLE = false;
 static std::string case_json(const std::vector<Op> &ops) {
-  std::string s = std::string("{\"provider\":\"") + jwt_get_crypto_ops() + "\",\"recycling_allocator\":" + (G_RECYCLE ? "true" : "false") + ",\"ops\":["; for (size_t i = 0; i < ops.size(); i++) s += (i ? "," : "") + std::string("[") + std::to_string(ops[i].k) + "," + std::to_string(ops[i].a) + "]";
+  std::string s = std::string("{\"provider\":\"") + jwt_get_crypto_ops() + "\",\"recycling_allocator\":" + (G_RECYCLE ? "true" : "false") + ",\"ledger_allocator\":" + (G_LEDGER ? "true" : "false") + ",\"ops\":["; for (size_t i = 0; i < ops.size(); i++) s += (i ? "," : "") + std::string("[") + std::to_string(ops[i].k) + "," + std::to_string(ops[i].a) + "]";
   s += "],\"readable\":["; for (size_t i = 0; i < ops.size(); i++) s += (i ? "," : "") + jstr(std::string(ON[ops[i].k % O_N]) + "(" + std::to_string(ops[i].a) + ")");
   return s + "],\"trace\":" + jstr(TRACE) + "}";
 }
@@ -175,12 +177,14 @@ int main(int argc, char **argv) {
   // every fourth worker runs with an allocator that hands a freed block to the next request of the same size: each sequence's set (and
   // its items) then live where those of the sequence before lived, so anything remembered by address across sets is read back wrong.
   // (No leak accounting on these workers: recycled blocks stay reachable.)
+  if ((a.worker & 3) == 2 && a.replay.empty()) { G_LEDGER = true; jwt_set_alloc(guard_malloc, guard_free); LEAKCHK = false; st.cls("worker-with-ledger-allocator"); }
   if ((a.worker & 3) == 3 && a.replay.empty()) { G_RECYCLE = true; jwt_set_alloc(recycle_malloc, recycle_free); LEAKCHK = false; st.cls("worker-with-recycling-allocator"); }
   // warm up one-time allocations of the crypto library so they are not attributed to a sequence
   { std::vector<Op> w = {{L_EC, 0}, {L_GOOD, 1}, {L_NONJSON, 2}}; run_seq(w); if (LEAKCHK) __lsan_do_recoverable_leak_check(); }
   if (!a.replay.empty()) {
     J j = J::parse(read_file(a.replay)); if (!j) return 2;
     { const char *pn = json_string_value(json_object_get(j.p, "provider")); if (pn) jwt_set_crypto_ops(pn); }
+    if (json_is_true(json_object_get(j.p, "ledger_allocator"))) { G_LEDGER = true; jwt_set_alloc(guard_malloc, guard_free); LEAKCHK = false; }
     if (json_is_true(json_object_get(j.p, "recycling_allocator"))) { G_RECYCLE = true; jwt_set_alloc(recycle_malloc, recycle_free); LEAKCHK = false; std::vector<Op> w = {{L_MIXED, 0}, {L_GOOD, 1}, {O_FIND, 0}, {O_GET, 2}}; run_seq(w); }   // a set lived here before
     std::vector<Op> ops; size_t i; json_t *e; json_array_foreach(json_object_get(j.p, "ops"), i, e) ops.push_back({(int)json_integer_value(json_array_get(e, 0)), (int)json_integer_value(json_array_get(e, 1))});
     g_single = true; std::string why; bool ok = one(ops, false, &why); if (!ok) fprintf(stderr, "replay: %s | %s\n", why.c_str(), TRACE.c_str());
